@@ -333,3 +333,347 @@ def allOk (S : LayerSet) : List Op → Prop
 
 end
 end Layers
+
+/-! ## saving and loading yields exactly the layers and glyphs the containers report -/
+
+namespace Layers
+
+/-- what a layer looks like after a save/load cycle: same name, directory and index; the glyph map is
+    rebuilt from the index -/
+def reloaded (lower : Str → Str) (l : Layer) : Layer :=
+  { l with glyphs := keys l.contents, pathSet := l.contents.map (fun e => lower e.2) }
+
+section
+variable (lower : Str → Str)
+
+theorem saveLayer_of_sync (l : Layer) (h : Sync l) :
+    saveLayer l = some { contents := l.contents, files := l.contents.map (·.2) } := by
+  unfold saveLayer
+  rw [if_pos]
+  simp only [List.all_eq_true, decide_eq_true_eq]
+  intro e he
+  exact (h e.1).2 (List.mem_map.2 ⟨e, he, rfl⟩)
+
+theorem saveDirs_of_sync (ls : List Layer) (h : ∀ l ∈ ls, Sync l) :
+    saveDirs ls = some (ls.map fun l => (l.path, { contents := l.contents, files := l.contents.map (·.2) })) := by
+  induction ls with
+  | nil => rfl
+  | cons l r ih =>
+    simp only [saveDirs, saveLayer_of_sync l (h l (by simp)), ih (fun x hx => h x (by simp [hx])),
+      List.map_cons]
+
+theorem lookupDir_map (ls : List Layer) (l : Layer) (hl : l ∈ ls) (hnd : (ls.map (·.path)).Nodup) :
+    lookupDir l.path (ls.map fun l => (l.path, ({ contents := l.contents, files := l.contents.map (·.2) } : DirT))) =
+      some { contents := l.contents, files := l.contents.map (·.2) } := by
+  induction ls with
+  | nil => simp at hl
+  | cons c cs ih =>
+    simp only [List.map_cons, List.nodup_cons, List.mem_map, not_exists, not_and] at hnd
+    simp only [List.map_cons, lookupDir]
+    simp only [List.mem_cons] at hl
+    rcases hl with rfl | hl
+    · simp
+    · have : c.path ≠ l.path := fun hc => hnd.1 l hl hc.symm
+      simp only [this, if_false]
+      exact ih hl hnd.2
+
+theorem loadLayer_saved (l : Layer) :
+    loadLayer lower l.name l.path { contents := l.contents, files := l.contents.map (·.2) } =
+      some (reloaded lower l) := by
+  unfold loadLayer
+  rw [if_pos]
+  · rfl
+  · simp only [List.all_eq_true, decide_eq_true_eq]
+    intro e he
+    exact List.mem_map.2 ⟨e, he, rfl⟩
+
+theorem loadLayers_saved (all sub : List Layer) (hsub : ∀ l ∈ sub, l ∈ all) (hnd : (all.map (·.path)).Nodup) :
+    loadLayers lower (all.map fun l => (l.path, ({ contents := l.contents, files := l.contents.map (·.2) } : DirT)))
+      (sub.map fun l => (l.name, l.path)) = some (sub.map (reloaded lower)) := by
+  induction sub with
+  | nil => rfl
+  | cons l r ih =>
+    simp only [List.map_cons, loadLayers, lookupDir_map all l (hsub l (by simp)) hnd, loadLayer_saved,
+      ih (fun x hx => hsub x (by simp [hx]))]
+
+/-- directories are pairwise different (not only ignoring case) in every state satisfying the invariant -/
+theorem paths_nodup (S : LayerSet) (h : SInv lower S) : (S.layers.map (·.path)).Nodup := by
+  obtain ⟨d, rest, hdr, hd⟩ := h.headDefault
+  rw [hdr]
+  simp only [List.map_cons, List.nodup_cons, List.mem_map, not_exists, not_and]
+  refine ⟨fun x hx hxe => h.tailNotDefault x (by rw [hdr]; exact hx) (by rw [hxe, hd]), ?_⟩
+  have := h.tailDistinct
+  rw [hdr] at this
+  simp only [List.tail_cons] at this
+  have e : rest.map (fun l => lower l.path) = (rest.map (·.path)).map lower := by simp
+  rw [e] at this
+  exact List.Pairwise.of_map lower (fun a b hab heq => hab (by rw [heq])) this
+
+/-- **save then load** — for every state that satisfies the invariant and whose indices are in step,
+    `Font::save` does not panic and `Font::load` of the written tree returns the same layers, in the same
+    order, with the same names and directories, each holding exactly the glyph names of its index. -/
+theorem save_load_reloaded (S : LayerSet) (hS : SInv lower S) (hs : AllSync S) :
+    ∃ t, saveTree S = .ok t ∧
+      loadTree lower t = some { layers := S.layers.map (reloaded lower),
+                                pathSet := (S.layers.map (reloaded lower)).tail.map (fun l => lower l.path) } := by
+  refine ⟨_, by simp only [saveTree, saveDirs_of_sync S.layers hs]; rfl, ?_⟩
+  simp only [loadTree]
+  rw [loadLayers_saved lower S.layers S.layers (fun _ h => h) (paths_nodup lower S hS)]
+  obtain ⟨d, rest, hdr, hd⟩ := hS.headDefault
+  have hdd : (reloaded lower d).isDefault = true := by simp [Layer.isDefault, reloaded, hd]
+  simp only [hdr, List.map_cons, defaultFirst, List.find?_cons, hdd, removeFirst, if_true,
+    List.drop_one, List.tail_cons]
+
+/-- … and those are the glyph names the container reports (as a set: both lists are duplicate-free) -/
+theorem reloaded_glyphs_perm (l : Layer) (hl : LInvW lower l) (hs : Sync l) :
+    (reloaded lower l).glyphs.Perm l.glyphs := by
+  apply (List.perm_ext_iff_of_nodup hl.keysNodup hl.glyphsNodup).2
+  intro a; exact (hs a).symm
+
+/-- **nothing dropped, nothing phantom** -/
+theorem save_load_reports (S : LayerSet) (hS : SInv lower S) (hs : AllSync S) :
+    ∃ t S', saveTree S = .ok t ∧ loadTree lower t = some S' ∧
+      S'.layers.map (fun l => (l.name, l.path)) = S.layers.map (fun l => (l.name, l.path)) ∧
+      S'.layers.length = S.layers.length ∧
+      ∀ i (h₁ : i < S'.layers.length) (h₂ : i < S.layers.length), (S'.layers[i]).glyphs.Perm (S.layers[i]).glyphs := by
+  obtain ⟨t, ht, hl⟩ := save_load_reloaded lower S hS hs
+  refine ⟨t, _, ht, hl, ?_, by simp, ?_⟩
+  · simp [reloaded]
+  · intro i h₁ h₂
+    simp only [List.getElem_map]
+    exact reloaded_glyphs_perm lower _ (hS.layersInv _ (List.getElem_mem h₂)) (hs _ (List.getElem_mem h₂))
+
+end
+
+/-! ### the recorded finding: `entry` desynchronises the indices -/
+
+def zName : Str := "z".toList
+def zFile : Str := "z.glif".toList
+
+/-- a new font after `entry("z").or_insert(..)` on the default layer -/
+def afterEntryInsert : LayerSet :=
+  (step id (fun _ _ => some zFile) (fun _ _ => none) (fun _ => true) LayerSet.default (.entryOrInsert 0 zName)).1
+
+/-- `entry("z").or_insert(..)` on a new font: the container reports the glyph, the save succeeds, the
+    loaded font has no glyph `z` -/
+theorem entry_or_insert_dropped_counterexample :
+    report afterEntryInsert = [(defaultName, glyphsDir, [zName])] ∧
+    saveTree afterEntryInsert =
+      .ok { layercontents := [(defaultName, glyphsDir)], dirs := [(glyphsDir, { contents := [], files := [] })] } ∧
+    (loadTree id { layercontents := [(defaultName, glyphsDir)],
+                   dirs := [(glyphsDir, { contents := [], files := [] })] }).map report =
+      some [(defaultName, glyphsDir, [])] := by
+  refine ⟨by decide, by decide, by decide⟩
+
+/-- a new font after `insert_glyph("z")` and then `entry("z")` → `Occupied::remove()` -/
+def afterEntryRemove : LayerSet :=
+  (step id (fun _ _ => some zFile) (fun _ _ => none) (fun _ => true)
+    (step id (fun _ _ => some zFile) (fun _ _ => none) (fun _ => true) LayerSet.default (.insertGlyph 0 zName)).1
+    (.entryRemove 0 zName)).1
+
+theorem afterEntryRemove_eq : afterEntryRemove =
+    { layers := [{ name := defaultName, path := glyphsDir, glyphs := [], contents := [(zName, zFile)],
+                   pathSet := [zFile] }], pathSet := [] } := by decide
+
+/-- … the indices are out of step and `Font::save` panics (`layer.rs:437`) -/
+theorem entry_remove_save_panics_counterexample :
+    ¬ AllSync afterEntryRemove ∧
+    saveTree afterEntryRemove = .panic "layer.rs:437 all glyphs in contents must exist" := by
+  refine ⟨?_, by decide⟩
+  rw [afterEntryRemove_eq]
+  intro h
+  have := (h _ (List.mem_singleton.2 rfl) zName).2 (by simp [keys])
+  simp at this
+
+/-! ## histories that stay away from `entry` keep the indices in step -/
+
+section
+variable (lower : Str → Str) (assignG assignL : Str → List Str → Option Str) (valid : Str → Bool)
+
+/-- no step of the history hits the documented 99-clashes panic -/
+def noPanic (S : LayerSet) : List Op → Prop
+  | [] => True
+  | op :: ops => (∀ site, (step lower assignG assignL valid S op).2 ≠ .panic site) ∧
+      noPanic (step lower assignG assignL valid S op).1 ops
+
+theorem sync_reachable_partial (hG : AssignOK lower assignG) (hL : AssignLOK lower assignL)
+    (S : LayerSet) (ops : List Op) (hS : SInv lower S) (hs : AllSync S)
+    (hne : ∀ op ∈ ops, usesEntry op = false) (hp : noPanic lower assignG assignL valid S ops) :
+    AllSync (run lower assignG assignL valid S ops) := by
+  induction ops generalizing S with
+  | nil => exact hs
+  | cons op ops ih =>
+    simp only [run]
+    obtain ⟨hp1, hp2⟩ := hp
+    apply ih _ (inv_step lower assignG assignL valid hG hL S op hS) _ (fun o ho => hne o (by simp [ho])) hp2
+    cases hr : (step lower assignG assignL valid S op).2 with
+    | ok => exact sync_step_partial lower assignG assignL valid S op hS hs (hne op (by simp)) hr
+    | err e => rw [error_leaves_state lower assignG assignL valid S op e hr]; exact hs
+    | panic site => exact absurd hr (hp1 site)
+
+/-- corollary: after any such history, save + load returns what the containers report -/
+theorem save_load_reports_reachable (hG : AssignOK lower assignG) (hL : AssignLOK lower assignL)
+    (ops : List Op) (hne : ∀ op ∈ ops, usesEntry op = false)
+    (hp : noPanic lower assignG assignL valid LayerSet.default ops) :
+    ∃ t S', saveTree (run lower assignG assignL valid LayerSet.default ops) = .ok t ∧
+      loadTree lower t = some S' ∧
+      S'.layers.map (fun l => (l.name, l.path)) =
+        (run lower assignG assignL valid LayerSet.default ops).layers.map (fun l => (l.name, l.path)) := by
+  have hS := inv_reachable lower assignG assignL valid hG hL LayerSet.default ops (inv_init lower)
+  have hs := sync_reachable_partial lower assignG assignL valid hG hL LayerSet.default ops (inv_init lower)
+    (by intro l hl; simp [LayerSet.default] at hl; subst hl; exact sync_new _ _) hne hp
+  obtain ⟨t, S', h1, h2, h3, _⟩ := save_load_reports lower _ hS hs
+  exact ⟨t, S', h1, h2, h3⟩
+
+end
+
+/-! ## a font loaded from a well-formed tree satisfies the invariant -/
+
+section
+variable (lower : Str → Str)
+
+/-- what norad itself writes, and what the specification asks of a UFO: distinct layer names, distinct
+    directories (ignoring case), a `glyphs` directory, `public.default` only for it, and per directory
+    an index with distinct names and distinct file names (ignoring case) -/
+structure CleanTree (t : Tree) : Prop where
+  namesNodup : (t.layercontents.map (·.1)).Nodup
+  dirsDistinct : (t.layercontents.map (fun e => lower e.2)).Nodup
+  reserved : ∀ e ∈ t.layercontents, e.2 ≠ glyphsDir → e.1 ≠ defaultName
+  dirsOK : ∀ e ∈ t.layercontents, ∀ d, lookupDir e.2 t.dirs = some d →
+    (keys d.contents).Nodup ∧ (d.contents.map (fun e => lower e.2)).Nodup
+
+theorem loadLayer_inv (n p : Str) (d : DirT) (L : Layer) (h : loadLayer lower n p d = some L)
+    (hk : (keys d.contents).Nodup) (hf : (d.contents.map (fun e => lower e.2)).Nodup) :
+    L.name = n ∧ L.path = p ∧ LInvW lower L ∧ Sync L := by
+  unfold loadLayer at h
+  split at h
+  · simp only [Option.some.injEq] at h; subst h
+    refine ⟨rfl, rfl, ⟨hk, hk, ?_, hf⟩, fun m => Iff.rfl⟩
+    intro e he; exact List.mem_map.2 ⟨e, he, rfl⟩
+  · simp at h
+
+theorem loadLayers_inv (dirs : List (Str × DirT)) (lc : List (Str × Str)) (ls : List Layer)
+    (h : loadLayers lower dirs lc = some ls)
+    (hd : ∀ e ∈ lc, ∀ d, lookupDir e.2 dirs = some d →
+      (keys d.contents).Nodup ∧ (d.contents.map (fun e => lower e.2)).Nodup) :
+    ls.map (fun l => (l.name, l.path)) = lc ∧ ∀ l ∈ ls, LInvW lower l ∧ Sync l := by
+  induction lc generalizing ls with
+  | nil => simp [loadLayers] at h; subst h; simp
+  | cons e r ih =>
+    obtain ⟨n, p⟩ := e
+    simp only [loadLayers] at h
+    cases hl : lookupDir p dirs with
+    | none => simp [hl] at h
+    | some d =>
+      simp only [hl] at h
+      cases hL : loadLayer lower n p d with
+      | none => simp [hL] at h
+      | some L =>
+        cases hr : loadLayers lower dirs r with
+        | none => simp [hL, hr] at h
+        | some Ls =>
+          simp only [hL, hr, Option.some.injEq] at h; subst h
+          obtain ⟨hk, hf⟩ := hd (n, p) (by simp) d hl
+          obtain ⟨h1, h2, h3, h4⟩ := loadLayer_inv lower n p d L hL hk hf
+          obtain ⟨ih1, ih2⟩ := ih Ls hr (fun e he => hd e (by simp [he]))
+          refine ⟨by simp [h1, h2, ih1], ?_⟩
+          intro l hl'
+          simp only [List.mem_cons] at hl'
+          rcases hl' with rfl | hl'
+          · exact ⟨h3, h4⟩
+          · exact ih2 l hl'
+
+/-- **a loaded font starts in the invariant** (so `inv_reachable` applies to every history on it) -/
+theorem inv_loaded (t : Tree) (S : LayerSet) (ht : CleanTree lower t) (h : loadTree lower t = some S) :
+    SInv lower S ∧ AllSync S := by
+  unfold loadTree at h
+  cases hls : loadLayers lower t.dirs t.layercontents with
+  | none => simp [hls] at h
+  | some ls =>
+    simp only [hls] at h
+    obtain ⟨hmap, hinv⟩ := loadLayers_inv lower t.dirs t.layercontents ls hls ht.dirsOK
+    unfold defaultFirst at h
+    cases hf : ls.find? (·.isDefault) with
+    | none => simp [hf] at h
+    | some d =>
+      simp only [hf, Option.some.injEq] at h
+      obtain ⟨hd, a, b, rfl, ha⟩ := find_split hf
+      rw [removeFirst_split a b d hd ha] at h
+      subst h
+      have hdp : d.path = glyphsDir := by simpa [Layer.isDefault] using hd
+      -- names and lower-cased directories of the loaded layers are those of the file
+      have hnames : ((a ++ d :: b).map (·.name)).Nodup := by
+        have : (a ++ d :: b).map (·.name) = t.layercontents.map (·.1) := by rw [← hmap, List.map_map]; rfl
+        rw [this]; exact ht.namesNodup
+      have hdirs : ((a ++ d :: b).map (fun l => lower l.path)).Nodup := by
+        have : (a ++ d :: b).map (fun l => lower l.path) = t.layercontents.map (fun e => lower e.2) := by
+          rw [← hmap, List.map_map]; rfl
+        rw [this]; exact ht.dirsDistinct
+      have hres : ∀ l ∈ a ++ d :: b, l.path ≠ glyphsDir → l.name ≠ defaultName := by
+        intro l hl
+        have : (l.name, l.path) ∈ t.layercontents := by
+          rw [← hmap]; exact List.mem_map.2 ⟨l, hl, rfl⟩
+        exact ht.reserved _ this
+      simp only [List.map_append, List.map_cons] at hnames hdirs
+      have hnotdef : ∀ x, x ∈ a ∨ x ∈ b → x.path ≠ glyphsDir := by
+        intro x hx hxp
+        rw [List.nodup_append] at hdirs
+        obtain ⟨_, h2, h3⟩ := hdirs
+        rcases hx with hx | hx
+        · exact h3 (lower x.path) (List.mem_map.2 ⟨x, hx, rfl⟩) (lower d.path) (by simp) (by rw [hxp, hdp])
+        · rw [List.nodup_cons] at h2
+          exact h2.1 (by rw [hdp, ← hxp]; exact List.mem_map.2 ⟨x, hx, rfl⟩)
+      refine ⟨⟨⟨d, a ++ b, rfl, hdp⟩, ?_, ?_, ?_, ?_, ?_, ?_⟩, ?_⟩
+      · intro x hx
+        simp only [List.tail_cons, List.mem_append] at hx
+        exact hnotdef x hx
+      · intro x hx
+        simp only [List.tail_cons, List.mem_append] at hx
+        apply hres x _ (hnotdef x hx)
+        simp only [List.mem_append, List.mem_cons]
+        rcases hx with hx | hx
+        · exact Or.inl hx
+        · exact Or.inr (Or.inr hx)
+      · intro x hx
+        simp only [List.tail_cons, List.drop_one] at hx ⊢
+        exact List.mem_map.2 ⟨x, hx, rfl⟩
+      · simp only [List.tail_cons, List.map_append]
+        rw [List.nodup_append] at hdirs ⊢
+        obtain ⟨h1, h2, h3⟩ := hdirs
+        exact ⟨h1, (List.nodup_cons.1 h2).2, fun x hx y hy => h3 x hx y (List.mem_cons_of_mem _ hy)⟩
+      · simp only [List.map_cons, List.map_append]
+        rw [List.nodup_append] at hnames
+        obtain ⟨h1, h2, h3⟩ := hnames
+        rw [List.nodup_cons] at h2 ⊢
+        refine ⟨?_, List.nodup_append.2 ⟨h1, h2.2, fun x hx y hy => h3 x hx y (List.mem_cons_of_mem _ hy)⟩⟩
+        simp only [List.mem_append, not_or]
+        exact ⟨fun hc => h3 d.name hc d.name (by simp) rfl, h2.1⟩
+      · intro x hx
+        apply (hinv x _).1
+        simp only [List.mem_cons, List.mem_append] at hx ⊢
+        rcases hx with rfl | hx | hx
+        · exact Or.inr (Or.inl rfl)
+        · exact Or.inl hx
+        · exact Or.inr (Or.inr hx)
+      · intro x hx
+        apply (hinv x _).2
+        simp only [List.mem_cons, List.mem_append] at hx ⊢
+        rcases hx with rfl | hx | hx
+        · exact Or.inr (Or.inl rfl)
+        · exact Or.inl hx
+        · exact Or.inr (Or.inr hx)
+
+end
+
+-- non-vacuity: the hypotheses of `inv_reachable` / `save_load_reports` are met by a concrete, non-trivial
+-- history (two layers, a rename with overwrite, a retain)
+example :
+    let assignG : Str → List Str → Option Str := fun g ps => if g ++ ".glif".toList ∈ ps then none else some (g ++ ".glif".toList)
+    let assignL : Str → List Str → Option Str := fun g ps => if "glyphs.".toList ++ g ∈ ps then none else some ("glyphs.".toList ++ g)
+    let S := run id assignG assignL (fun _ => true) LayerSet.default
+      [.insertGlyph 0 "a".toList, .newLayer "bg".toList, .insertGlyph 1 "a".toList, .insertGlyph 1 "b".toList,
+       .renameGlyph 1 "a".toList "b".toList true, .retain 0 ["a".toList], .renameLayer "bg".toList "fg".toList true]
+    report S = [(defaultName, glyphsDir, ["a".toList]), ("fg".toList, "glyphs.fg".toList, ["b".toList])] := by
+  decide
+
+end Layers
